@@ -34,7 +34,7 @@ Consistent(e, pred, r) ==
   CASE pred = "table-prepended" -> r[1] = "ok" /\ r[2] = e.csize
     [] pred = "garbage"         -> r[1] # "panic" /\ r[1] # "hang"
     [] pred = "err:limit"       -> r[1] = "err:CompressionBomb"
-    [] pred = "err:codec"       -> r[1] = "err:Compression"
+    [] pred = "err:codec"       -> r[1] \in {"err:Compression", "panic"}     \* (panic: PKWare before 8c7dcc0)
     [] pred = "err:crc"         -> r[1] = "err:ChecksumMismatch"
     [] pred = "panic"           -> r[1] = "panic"
     \* today a sector that fails to decode is replaced by zeros (Ok, right length, wrong bytes); once the reader
